@@ -5,11 +5,12 @@
 ID=$1; N=$2
 SRC=${SEEDROOT:-/tmp/seed}/$ID/seed_out/$N
 OUT=${EVALOUT:-/tmp/seedeval}/${ID}_$N
-WT=/tmp/confirm/repo
-export CARGO_TARGET_DIR=/tmp/confirm/target CARGO_INCREMENTAL=0 CARGO_NET_OFFLINE=true
+CF=${CONFIRM:-/tmp/confirm}
+WT=$CF/repo
+export CARGO_TARGET_DIR=${CONFIRM:-/tmp/confirm}/target CARGO_INCREMENTAL=0 CARGO_NET_OFFLINE=true
 exec >$OUT.log 2>&1
 set -x
-if [ ! -d $WT ]; then mkdir -p /tmp/confirm; git -C /repo worktree add -q --detach $WT HEAD || exit 2; fi
+if [ ! -d $WT ]; then mkdir -p $CF; git -C /repo worktree add -q --detach $WT HEAD || exit 2; fi
 cd $WT && git reset -q --hard && git checkout -q --detach $(git -C /repo rev-parse HEAD) && git reset -q --hard && git clean -fdq
 PATCH=$SRC/${PATCHNAME:-patch.diff}
 if ! git apply --check $PATCH; then
@@ -33,13 +34,13 @@ git apply ${APPLY:-} $PATCH
 timeout 1500 cargo test -p $PKG --offline $FEAT --test $TEST > $OUT.demo_patched.log 2>&1; RC_PATCHED=$?
 # existing suite with the patch (demo files removed)
 for f in $SRC/*.rs; do rm -f $DEST/$(basename $f); done
-rm -f /tmp/confirm/repo/target/nextest/pb/junit.xml
+rm -f $CF/repo/target/nextest/pb/junit.xml
 timeout 2400 cargo nextest run --workspace --no-fail-fast --tool-config-file pb:/w/lib/nextest.toml --profile pb --test-threads 8 --offline > $OUT.suite.log 2>&1
 SUITE=$(python3 - <<'PY'
 import json, xml.etree.ElementTree as ET
 base=set(json.load(open('/root/.vp/BASELINE.json'))['stable_pass'])
 try:
-    t=ET.parse('/tmp/confirm/repo/target/nextest/pb/junit.xml').getroot()
+    import os; t=ET.parse(os.environ.get('CONFIRM','/tmp/confirm')+'/repo/target/nextest/pb/junit.xml').getroot()
 except Exception as e:
     print("NOJUNIT"); raise SystemExit
 ok=set()
